@@ -158,6 +158,9 @@ func mapRangeInGenerators(c *vf.Check) {
 	nval := 0
 	for k, r := range results {
 		s := sel[jobScen[k]]
+		if r.Status == "notrun" {
+			continue
+		}
 		if r.Status != "ok" {
 			c.Violation(J{"scenario": s, "status": r.Status}, fmt.Sprintf("generator ranging over a map did not finish (%s): %s", r.Status, canon(s)))
 			continue
